@@ -304,7 +304,7 @@ def c20_case(task):
     files, patches, lines = tq.workspace_of(m0, series, names)
     out = {'evals': 0, 'violations': [], 'outcomes': {}, 'nontrivial': 0}
     runs = []
-    for fz in (0, 1, 2, 3) + ((1000, 4294967296, 9223372036854775807, 18446744073709551615) if huge else ()):
+    for fz in (0, 1, 2, 3) + ((1000, 4294967296, 9223372036854775807, 18446744073709551615, 18446744073709551616, 10 ** 30) if huge else ()):
         for threads in (1, 2):
             ws.make_ws(root, files, patches, lines)
             o = ws.run_rq(root, ['-a', '-q', '--backup', 'always', '--fuzz', str(fz)], threads=threads, trace=os.path.join(d, 'trace'))
@@ -373,7 +373,7 @@ def c11_case(task):
         if kind == 'patch':
             s = payload.decode('latin-1')
             big = any(len(n) >= 10 for l in s.splitlines() if l.startswith('@@') for n in ''.join(c if c.isdigit() else ' ' for c in l).split())
-            c = 'hunk-header-with-huge-number' if big else ('failing-hunk-of-lookalike-lines' if len(files) == 1 else 'token-sequence')
+            c = 'hunk-header-with-huge-number' if big else ('failing-hunk-of-lookalike-lines' if len(files) == 1 else ('failing-hunk-with-thousands-of-context-lines' if 'keep' in files else 'token-sequence'))
         else:
             c = 'series-file'
         out['violations'].append((c + ('+threads>1' if threads > 1 else '+threads=1'), o.cls,
@@ -431,6 +431,10 @@ def run_c11(tier, seed, res):
         for line in (b'\n', b'}\n'):
             body = b' ' + line
             inputs.append(({'f': (line * n, 0o644)}, b'--- a/f\n+++ b/f\n@@ -1,%d +1,%d @@\n' % (n + 1, n) + body * (n // 2) + b'-x\n' + body * (n - n // 2)))
+    # a failing hunk with thousands of context lines (a full-context diff): the fuzz hint of the diagnostics has as many fuzz levels to try
+    for n in (500, 4000):
+        body = b''.join(b' l%d\n' % i for i in range(n // 2)) + b'-x\n+y\n' + b''.join(b' l%d\n' % i for i in range(n // 2, n))
+        inputs.append(({'f': (b''.join(b'l%d\n' % i for i in range(n)), 0o644), 'keep': (b'k\n', 0o644)}, b'--- a/f\n+++ b/f\n@@ -1,%d +1,%d @@\n' % (n + 1, n + 1) + body))
     # failing hunks in systematic shapes of mismatch: the failure diagnostics (closest match, hints) of the default verbosity
     for fp in tq.failing_shapes(tq.initial(), 'e/i'):
         inputs.append(fp.text().replace(b'e/i', b'f'))
